@@ -12,7 +12,9 @@ header is parsed at run time, so a function the spec does not model stops the ch
 unique-name tables / fptr tables are registered, the spec's databases (rendered by the spec's writer) and
 real `interrogate -od` databases are loaded, EVERY function is called with every index in [-2, next+2] +
 INT_MIN/INT_MAX and every position in [-1, count+1] + extremes, by-name lookups with every stored, mutated
-and absent name; each call is isolated (a crash or hang costs that call only)."""
+and absent name; each call is isolated (a crash or hang costs that call only).  HISTORIES (task "stage"): a lookup
+is answered, a further database is requested and merged, then every stored name is looked up -- all 6 x 6 pairs
+of (lookup function answered first, lookup function used later), with the name maps' fresh bits as spec state."""
 import os, json, time, threading
 from ..common import MachineryError, NCPU
 from .. import build, tlc
@@ -105,6 +107,9 @@ def run_check(ctx):
     uniq = [x for x in recs if x.get("task") == "uniq"]
     fptr = [x for x in recs if x.get("task") == "fptr"]
     dbs = [x for x in recs if x.get("task") == "db"]
+    stages = [x for x in recs if x.get("task") == "stage"]
+    if len(stages) < 72:
+        raise MachineryError("IdbQuery dump incomplete: %d staged lookup histories" % len(stages))
     if not uniq or not fptr or len(dbs) < 3 + len(real):
         raise MachineryError("IdbQuery dump incomplete: %d uniq, %d fptr, %d db" % (len(uniq), len(fptr), len(dbs)))
     ctx.cov["exhaustive"] = True
@@ -138,6 +143,7 @@ def run_check(ctx):
     build_uniq(uniq, cases, expect, nontrivial)
     build_fptr(fptr, cases, expect, nontrivial, base_path)
     build_db(ctx, table, dbs, real, cases, expect, nontrivial)
+    build_stage(stages, cases, expect, nontrivial)
     phases["render"] = round(time.time() - t0, 1)
     for r in (uniq[len(uniq) // 2], uniq[-1]):
         ctx.sample(dict(call=UNIQ, table=[[HASH[m["hash"]] + RENDER[0][e["key"]], m["first"] + e["off"]]
@@ -182,6 +188,7 @@ def run_check(ctx):
     ctx.notes["database_scenarios"] = [d["name"] for d in dbs if not d["name"].startswith("lookup")] + \
         ["lookup-* x %d" % sum(1 for d in dbs if d["name"].startswith("lookup"))]
     ctx.notes["interface_functions"] = len(funcs)
+    ctx.notes["staged_lookup_histories"] = len(stages)
 
 
 # -------------------------------------------------------------------------------------------------
@@ -311,6 +318,27 @@ def build_db(ctx, table, dbs, real, cases, expect, nontrivial):
             ctx.sample(dict(scenario=name, records=d["nrec"], next_index=d["next"], index_arguments=idx[:6] + ["..."] + idx[-3:],
                             example={table.qf[j]["fn"]: d["res"][j] if not isinstance(d["res"][j], list) else d["res"][j][:8]
                                      for j in (2, 45, 117)}))
+
+
+def build_stage(stages, cases, expect, nontrivial):
+    """histories: files1, one lookup, a further database requested (merged by the next query), lookups of every name"""
+    for n, r in enumerate(stages):
+        setup = [["dbmem", Q.b2s(f)] for f in r["files1"]] + [["touch"]]
+        nm1 = Q.b2s(r["nm1"])
+        hist = "after %s(%r) on %d file(s) and a further database" % (r["fn1"], nm1, len(r["files1"]))
+        queries = [["n", r["fn1"], nm1]]
+        exp = [("%s(%r) on %d file(s)" % (r["fn1"], nm1, len(r["files1"])), [], one_of(set(r["ok1"]), "answer"))]
+        for f in r["files2"]:
+            queries.append(["dbmem", Q.b2s(f)])
+            exp.append(("requesting a further database", [], lambda got: None))
+        for c in sorted(r["lk"], key=lambda c: c["name"]):
+            nm = Q.b2s(c["name"])
+            queries.append(["n", r["fn2"], nm])
+            exp.append(("%s(%r) %s" % (r["fn2"], nm, hist), [], one_of(set(c["ok"]), "answer")))
+            nontrivial.add(("s", n, nm))
+        cid = "s%d" % n
+        cases.append({"id": cid, "setup": setup, "queries": queries})
+        expect[cid] = exp
 
 
 def explode(q, e):
